@@ -117,8 +117,9 @@ func (parser *Parser) nextBulkMessage() (*Message, error) {
 }
 
 // nextArrayMessage gets a next array message in the next array.
-func (parser *Parser) nextArrayMessage() (*Message, error) {
-	array, err := newArrayWithParser(parser)
+// depth is the number of arrays that enclose the next array.
+func (parser *Parser) nextArrayMessage(depth int) (*Message, error) {
+	array, err := newArrayWithParser(parser, depth)
 	if err != nil {
 		return nil, err
 	}
@@ -132,6 +133,11 @@ func (parser *Parser) nextArrayMessage() (*Message, error) {
 
 // Next returns a next message.
 func (parser *Parser) Next() (*Message, error) {
+	return parser.next(0)
+}
+
+// next returns a next message which is enclosed by the specified number of arrays.
+func (parser *Parser) next(depth int) (*Message, error) {
 	// Parses a first type byte.
 	typeByte := make([]byte, 1)
 	_, err := parser.reader.Read(typeByte)
@@ -144,7 +150,7 @@ func (parser *Parser) Next() (*Message, error) {
 
 	// Returns a next array if the message type is array.
 	if typeByte[0] == arrayMessageByte {
-		return parser.nextArrayMessage()
+		return parser.nextArrayMessage(depth)
 	}
 
 	// Returns a next bulk strings if the message type is bulk string.
